@@ -80,7 +80,8 @@ class PaneBase:
             name=name, out_format=out_format, in_format=in_format,
             eq=eq, order=order, frozen=frozen, allow_extra=allow_extra,
             kw_only=kw_only, in_rename=in_rename, out_rename=out_rename,
-            class_handlers=ConverterHandlers._process(custom),
+            # None (not an empty tuple) when not specified, so that handlers are inherited
+            class_handlers=None if custom is None else ConverterHandlers._process(custom),
         )
 
         _process(cls, opts)
